@@ -147,7 +147,7 @@ PROPS = {
     "C20": dict(
         family="intertx", mc_module="MC_Intertx", trace_module="TraceIntertx",
         mc=[("intertx_q", 120)], mc_t=[("intertx_t", 600)],
-        inv=["C20_OwnPort"], step=["C20_Forward"], tinv=["T_C20_NoPanic"],
+        inv=["C20_OwnPort"], step=["C20_Forward", "C20_SendsWhenPossible"], tinv=["T_C20_NoPanic"],
         gen=[("intertx_g", 120, 30)], gen_t=[("intertx_g", 1200, 40)],
     ),
     "C15": dict(family="iri", mc=[], inv=[], step=[], tinv=[]),
